@@ -28,7 +28,7 @@ BASE = {
         "open": 7, "add": 8, "close": 5, "drop": 2.5, "reconnect": 3, "ping": 0.7,
         "adv_small": 4, "adv_min": 2, "adv_sweep": 1.5, "adv_phase": 0.7, "adv_long": 0.4,
         "restart": 0.8, "kill": 0.3, "bad": 0.8, "stall": 0.2, "jump": 0.0, "dbfault": 0.0,
-        "persona": 1.5, "bulk": 0.0, "third": 0.5, "resend": 1.0, "split": 0.2, "idle_sub": 0.2, "late_claim": 0.1, "reuse": 0.15, "exhaust": 0.0, "dormant": 0.05, "boundary": 0.05, "revenant": 0.05, "foreign": 0.05, "volume": 0.06,
+        "persona": 1.5, "bulk": 0.0, "third": 0.5, "resend": 1.0, "split": 0.2, "idle_sub": 0.2, "late_claim": 0.1, "reuse": 0.15, "exhaust": 0.0, "dormant": 0.05, "boundary": 0.05, "revenant": 0.05, "foreign": 0.05, "volume": 0.06, "overlap": 0.1,
     },
 }
 
@@ -45,12 +45,12 @@ PROFILES = {
     "default": profile(),
     "C01": profile(crash_p=0.008, unicode_p=0.3, literal_ids=2, share_ids_p=0.06, jumps=[-30.0, -2.0, -0.5, 0.5, 30.0],
                    w={"add": 14, "open": 10, "drop": 4, "reconnect": 5, "adv_phase": 1.2, "adv_long": 0.8,
-                      "restart": 1.5, "kill": 0.6, "close": 6, "reuse": 1.5, "jump": 0.4, "boundary": 1.0, "revenant": 0.5}),
+                      "restart": 1.5, "kill": 0.6, "close": 6, "reuse": 1.5, "jump": 0.4, "boundary": 1.0, "revenant": 0.5, "volume": 0.4}),
     "C02": profile(crash_p=0.008, nsides=(2, 3), autoping_p=0.4, names=2, literal_ids=1, napps=(1, 2), share_ids_p=0.06, unicode_p=0.25, big_p=0.02,
                    jumps=[-30.0, -2.0, -0.5, 0.5, 30.0],
-                   w={"jump": 0.5, "add": 14, "open": 10, "connect": 10, "adv_sweep": 3, "restart": 2.0, "kill": 0.6,
+                   w={"volume": 0.4, "overlap": 0.5, "jump": 0.5, "add": 14, "open": 10, "connect": 10, "adv_sweep": 3, "restart": 2.0, "kill": 0.6,
                       "stall": 0.6, "reconnect": 5, "close": 3, "release": 2, "persona": 1, "split": 2.0, "late_claim": 0.7, "reuse": 1.0}),
-    "C03": profile(crash_p=0.012, names=3, w={"claim": 14, "allocate": 4, "release": 8, "restart": 1.5, "reconnect": 4, "late_claim": 2.0,
+    "C03": profile(crash_p=0.012, names=3, w={"overlap": 1.5, "claim": 14, "allocate": 4, "release": 8, "restart": 1.5, "reconnect": 4, "late_claim": 2.0,
                                "resend": 3, "close": 5, "adv_long": 0.8, "add": 3}),
     "C04": profile(crash_p=0.008, allow_list_p=0.5, napps=(1, 2), case_app_p=0.3, choice_modes=["faithful", "min", "max", "keyed"],
                    randrange_modes=["faithful", "collide"], steps=(6, 30), names=6,
@@ -60,7 +60,7 @@ PROFILES = {
                    usage_p=0.3,
                    w={"third": 6, "jump": 0.5, "reuse": 1.5, "revenant": 1.5, "claim": 8, "open": 9, "close": 6, "release": 4, "reconnect": 5, "resend": 4,
                       "drop": 4, "restart": 1.0, "add": 6}),
-    "C06": profile(napps=(2, 3), names=2, literal_ids=2, share_ids_p=0.12, numeric_app_p=0.15, case_app_p=0.2,
+    "C06": profile(slow_p=0.0, napps=(2, 3), names=2, literal_ids=2, share_ids_p=0.12, numeric_app_p=0.15, case_app_p=0.2,
                    w={"restart": 1.5, "adv_sweep": 1.5, "adv_long": 1.2, "connect_unbound": 1.5, "split": 1.5,
                       "late_claim": 1.0, "idle_sub": 0.5, "dormant": 1.2, "foreign": 0.3}),
     "C07": profile(crash_p=0.012, names=4, nsides=(2, 3),
@@ -71,28 +71,28 @@ PROFILES = {
                       "drop": 4, "persona": 3}),
     "C09": profile(crash_p=0.01, usage_p=0.6, w={"persona": 3, "adv_sweep": 2, "bad": 1.5, "idle_sub": 1.0}),
     "C12": profile(crash_p=0.012, autoping_p=0.5, steps=(12, 50), names=3, odd_app_p=0.15,
-                   w={"adv_phase": 5, "adv_sweep": 5, "adv_min": 4, "adv_long": 1.5, "stall": 0.8, "add": 8,
+                   w={"volume": 0.3, "overlap": 1.0, "adv_phase": 5, "adv_sweep": 5, "adv_min": 4, "adv_long": 1.5, "stall": 0.8, "add": 8,
                       "open": 8, "restart": 1.0, "kill": 0.4, "drop": 3, "jump": 0.3, "close": 2, "release": 2, "split": 1.0, "idle_sub": 1.0, "late_claim": 1.0}),
     "C13": profile(crash_p=0.02, quiesce_p=1.0, steps=(8, 40), jumps=[0.5, 30.0, 700.0, 3600.0], share_ids_p=0.2, napps=(1, 3),
                    w={"dbfault": 0.8, "jump": 0.3, "adv_sweep": 2.5, "adv_long": 1.0, "third": 1.5, "reconnect": 4, "resend": 2,
                       "drop": 4, "close": 6, "foreign": 0.8}),
     "C15": profile(usage_p=1.0, nsides=(2, 4), steps=(10, 45),
                    w={"close": 9, "release": 7, "persona": 3, "adv_long": 1.2, "third": 1.5, "adv_sweep": 2,
-                      "kill": 0.0}),
+                      "kill": 0.0, "bulk": 0.15}),
     "C16": profile(usage_p=1.0, blur=[1, 7, 60, 61, 100, 900, 3600, 86400], log_fd_p=0.2,
                    jumps=[-3600.0, -30.0, -2.0, 0.5, 30.0],
-                   w={"close": 8, "release": 7, "persona": 3, "adv_long": 1.5, "adv_sweep": 2, "adv_small": 6, "jump": 0.6}),
+                   w={"close": 8, "release": 7, "persona": 3, "adv_long": 1.5, "adv_sweep": 2, "adv_small": 6, "jump": 0.6, "bulk": 0.15}),
     "C17": profile(unicode_p=0.5, welcome_p=0.7, share_ids_p=0.05, big_p=0.01,
                    w={"bad": 14, "connect_unbound": 2, "ping": 2, "third": 2.5, "list": 5, "reuse": 1.5}),
-    "C10": profile(linger_p=0.0, steps=(6, 22), usage_p=0.6, nsides=(2, 3), names=3, autoping_p=0.1, hold_p=0.0,
+    "C10": profile(linger_p=0.0, slow_p=0.0, steps=(6, 22), usage_p=0.6, nsides=(2, 3), names=3, autoping_p=0.1, hold_p=0.0,
                    w={"claim": 9, "release": 7, "close": 8, "open": 7, "add": 5, "adv_sweep": 1.5, "adv_long": 1.0,
                       "restart": 0.3, "kill": 0.3, "persona": 2.5, "third": 0.8, "bad": 0.2, "stall": 0, "idle_sub": 1.5}),
     "C11": profile(napps=(1, 2), names=2, literal_ids=1, autoping_p=0.2,
-                   w={"restart": 2.5, "kill": 0.0, "adv_sweep": 3, "open": 9, "add": 9, "connect": 9, "reconnect": 5,
+                   w={"exhaust": 0.8, "restart": 2.5, "kill": 0.0, "adv_sweep": 3, "open": 9, "add": 9, "connect": 9, "reconnect": 5,
                       "adv_min": 3, "jump": 0, "dbfault": 0, "split": 2.0}),
     "C14": profile(nsides=(2, 4), names=3, hold_p=0.0, w={"resend": 0.0, "third": 3.0, "close": 7, "release": 6, "claim": 8,
                                                "open": 8, "restart": 0.5, "kill": 0.0}),
-    "C18": profile(allow_list_p=0.5, w={"list": 6, "allocate": 6, "adv_long": 1.0}),
+    "C18": profile(crash_p=0.015, allow_list_p=0.5, w={"list": 6, "allocate": 6, "adv_long": 1.0, "adv_sweep": 1.5}),
 }
 
 
@@ -153,6 +153,7 @@ class Gen(object):
         self.counter = 0
         self.queue = []
         self.emitted = 0
+        self.used_ids = []
         self.lingering = []      # connections whose close handshake is done but not their TCP teardown
         self.mboxes = {a: [] for a in self.apps}    # known mailbox specs per app
         self.nps = {a: [] for a in self.apps}       # known allocated-name specs per app
@@ -202,6 +203,8 @@ class Gen(object):
         st = {"op": "send", "c": c.id, "m": m}
         if self.rng.random() < self.p["seg_p"]:
             st["seg"] = [round(self.rng.random(), 3) for _ in range(self.rng.randint(1, 3))]
+            if self.rng.random() < self.p.get("slow_p", 0.25):
+                st["gap"] = self.rng.choice([0.3, 2.0, 7.5, 20.0])      # a stalling uplink
         if self.rng.random() < self.p.get("wire_p", 0.03):
             # websocket-level variety: the message in several fragments, a ping on the way
             w = {}
@@ -218,6 +221,12 @@ class Gen(object):
         x = self.rng.random()
         if x < 0.5:
             m["id"] = self.uniq("i")
+            self.used_ids.append(m["id"])
+        elif x < 0.56 and self.used_ids:
+            # ids are chosen by each client on its own: the same id again, from whatever connection
+            m["id"] = self.rng.choice(self.used_ids)
+        elif x < 0.58:
+            m["id"] = self.rng.choice(["a1b2", "0", "", "1"])
         if extra and self.rng.random() < 0.1:
             m["junk"] = {"nested": [1, 2, {"x": None}]}
         return m
@@ -667,6 +676,32 @@ class Gen(object):
             out += o + self.a_open(c, mb)
         return out
 
+    def a_overlap(self):
+        """a side comes back on a second connection while the server still believes in the first
+        (a half-dead socket): both claim and open; the old one is reaped only later; the new one
+        then sits idle over several sweeps; finally the partner arrives"""
+        r = self.rng
+        app = r.choice(self.apps)
+        s1, s2 = r.sample(self.sides, 2) if len(self.sides) >= 2 else (self.sides[0], self.sides[0])
+        a1, out = self.a_connect(app=app, side=s1)
+        if r.random() < 0.6:
+            out += self.a_allocate(a1)
+            name = {"ref": "allocated", "c": a1.id}
+        else:
+            name = self.name_for(a1)
+        out += self.a_claim(a1, name) + self.a_open(a1, {"ref": "claimed", "c": a1.id})
+        if r.random() < 0.5:
+            out += self.a_add(a1)
+        out.append({"op": "advance", "dt": round(r.uniform(5, 200), 3)})
+        a2, o = self.a_connect(app=app, side=s1)
+        out += o + self.a_claim(a2, name) + self.a_open(a2, {"ref": "claimed", "c": a2.id})
+        out.append({"op": "advance", "dt": round(r.uniform(0.5, 60), 3)})
+        out += self.a_drop(a1, r.choice(["abrupt", "clean"]))
+        out.append({"op": "advance", "dt": round(r.uniform(700, 1500), 3)})
+        b, o = self.a_connect(app=app, side=s2)
+        out += o + self.a_claim(b, name) + self.a_open(b, {"ref": "claimed", "c": b.id}) + self.a_add(b)
+        return out
+
     def a_foreign(self):
         """one mailbox id, two applications, overlapping lifetimes: two sides of one app use it,
         a client of another app opens the same id and stays, the first app's sides close, and
@@ -685,6 +720,18 @@ class Gen(object):
         out += self.a_open(a, mb) + self.a_add(a)
         b, o = self.a_connect(app=one, side=s2)
         out += o + self.a_open(b, mb)
+        if r.random() < 0.35:
+            # the first app's users vanish and the sweep ends their mailbox; the second app then uses
+            # the id, and a user of the first app comes back to it
+            out += self.a_drop(a, "abrupt") + self.a_drop(b, "abrupt")
+            out.append({"op": "advance", "dt": round(r.uniform(EXPIRY + PERIOD + 1, EXPIRY + 3 * PERIOD), 3)})
+            x, o = self.a_connect(app=two, side=r.choice([s1, s2]))
+            out += o + self.a_open(x, mb) + self.a_add(x)
+            a2, o = self.a_connect(app=one, side=s1)
+            out += o + self.a_open(a2, mb)
+            y, o = self.a_connect(app=two, side=s2 if x.side == s1 else s1)
+            out += o + self.a_open(y, mb) + self.a_add(y) + self.a_close(y) + self.a_close(x)
+            return out
         x, o = self.a_connect(app=two, side=r.choice([s1, s2]))
         out += o + self.a_open(x, mb)
         order = [a, b]
@@ -708,8 +755,20 @@ class Gen(object):
         out += self.a_claim(a, self.name_for(a))
         mb = {"ref": "claimed", "c": a.id}
         out += self.a_open(a, mb)
-        kind = r.choice(["messages", "connections", "sweeps"])
-        if kind == "messages":
+        kind = r.choice(["messages", "connections", "sweeps", "mailboxes"])
+        if kind == "mailboxes":
+            # many channels of one app, each with a waiting (subscribed, silent) client, over sweeps
+            n = r.choice([40, 101, 130])
+            cs = []
+            for i in range(n):
+                c, o = self.a_connect(app=app, side=s1)
+                out += o + self.a_open(c, "vol-%d" % i)
+                cs.append(c)
+            out.append({"op": "advance", "dt": round(r.uniform(700, 1300), 3)})
+            for c in r.sample(cs, 4) + [cs[-1]]:
+                b, o = self.a_connect(app=app, side=s2)
+                out += o + self.a_open(b, c.opened) + self.a_add(b)
+        elif kind == "messages":
             for _ in range(r.choice([17, 33, 65, 130])):
                 out += self.a_add(a)
             b, o = self.a_connect(app=app, side=s2)
@@ -907,6 +966,7 @@ class Gen(object):
             acts.append(("revenant", w.get("revenant", 0)))
             acts.append(("foreign", w.get("foreign", 0)))
             acts.append(("volume", w.get("volume", 0)))
+            acts.append(("overlap", w.get("overlap", 0)))
             dead = [c for c in self.conns.values() if not c.alive and c.app is not None]
             if dead:
                 acts.append(("reconnect", w["reconnect"]))
@@ -958,6 +1018,8 @@ class Gen(object):
             return self.a_foreign()
         if a == "volume":
             return self.a_volume()
+        if a == "overlap":
+            return self.a_overlap()
         if a in ("reconnect", "resend"):
             dead = [c for c in self.conns.values() if not c.alive and c.app is not None]
             return self.a_reconnect(r.choice(dead), resend=(a == "resend"))
